@@ -325,6 +325,53 @@ pub struct PageScan {
     min: Option<i64>,
     ord: Option<Color>,
     flag: Option<bool>,
+    /// members of a flattened struct reach serde through `deserialize_any`
+    #[serde(flatten)]
+    more: PageMore,
+}
+
+#[derive(Deserialize, JsonSchema)]
+pub struct PageMore {
+    note: Option<String>,
+}
+
+/// A path variable that is a number or else a name (untagged: serde tries the
+/// variants in turn on whatever `deserialize_any` produces).
+#[derive(Deserialize)]
+#[serde(untagged)]
+pub enum NumOrName {
+    Num(u64),
+    Name(String),
+}
+
+// (in a path a parameter must be a scalar: it is, textually, a string)
+impl JsonSchema for NumOrName {
+    fn schema_name() -> String {
+        "NumOrName".to_string()
+    }
+    fn json_schema(gen: &mut schemars::gen::SchemaGenerator) -> schemars::schema::Schema {
+        String::json_schema(gen)
+    }
+}
+
+#[derive(Deserialize, JsonSchema)]
+pub struct WhoPath {
+    who: NumOrName,
+}
+
+#[endpoint { method = GET, path = "/who/{who}" }]
+async fn echo_who(
+    rqctx: RequestContext<SimCtx>,
+    path: Path<WhoPath>,
+) -> Result<Response<Body>, HttpError> {
+    let (nonce, g) = delay(&rqctx).await;
+    let args = match path.into_inner().who {
+        NumOrName::Num(n) => json!({"who": {"num": n}}),
+        NumOrName::Name(s) => json!({"who": {"name": s}}),
+    };
+    let r = respond(nonce, args, ctx_json(&rqctx));
+    g.finish();
+    r
 }
 
 #[derive(Deserialize, serde::Serialize, JsonSchema)]
@@ -346,6 +393,7 @@ async fn echo_page(
     let args = match &p.page {
         WhichPage::First(scan) => json!({
             "first": scan.tag, "min": scan.min, "ord": scan.ord.map(|c| c.name()), "flag": scan.flag,
+            "note": scan.more.note,
             "limit": limit,
         }),
         WhichPage::Next(sel) => json!({"next": {"n": sel.n, "s": sel.s}, "limit": limit}),
@@ -471,6 +519,7 @@ pub fn register(api: &mut ApiDescription<SimCtx>, versioned: bool) {
     api.register(echo_stream).unwrap();
     api.register(echo_rawreq).unwrap();
     api.register(echo_page).unwrap();
+    api.register(echo_who).unwrap();
     api.register(echo_mp).unwrap();
     api.register(echo_wild).unwrap();
     api.register(echo_narrow).unwrap();
